@@ -78,6 +78,8 @@ CARRIERS = {
                                 {"k": "cpp_attr", "doc": 1, "default": "late"},
                                 {"k": "cpp_member", "doc": 1, "types": ["int"], "params": ["a"]}, {"k": "close"},
                                 {"k": "cpp_class", "doc": 1}, {"k": "cpp_attr", "doc": 1}],
+    "module_doc": lambda: [{"k": "module", "name": "my.module", "doc": 1}, {"k": "function", "doc": 1, "params": []}],
+    "module_doc_unnamed": lambda: [{"k": "module", "name": "", "doc": 1}, {"k": "set", "doc": 0}],
     "nothing_to_document": lambda: [{"k": "set", "doc": 0}, {"k": "generic", "doc": 0}, {"k": "if", "doc": 0}],
     "empty_file": lambda: [],
     "undocumented": lambda: [{"k": "function", "doc": 0, "params": ["a"]}, {"k": "close"}, {"k": "macro", "doc": 0},
@@ -238,9 +240,11 @@ def judge(page_text, events, marks):
                             msgs.append(f"nesting: member {m['name']}: field 'type {p}' not inside the method directive")
                 elif m["has_value"] and "value" not in k["opts"]:
                     msgs.append(f"nesting: attribute {m['name']}: value option not attached to the attribute directive")
-    # module stub must not contain anything planted in a doc
-    if MK.findall(own_text(rest[0])):
-        msgs.append("containment: doc text leaked into the module directive")
+    # the module stub holds exactly the markers planted in the module doccomment (none if there is none)
+    mod_src = [i for i, ev in enumerate(events) if ev["k"] == "module"]
+    want_mod = sorted(marks.get(mod_src[0], [])) if mod_src else []
+    if sorted(MK.findall(own_text(rest[0]))) != want_mod:
+        msgs.append(f"containment: module directive holds markers {sorted(MK.findall(own_text(rest[0])))}, planted {want_mod}")
     return msgs
 
 
@@ -276,6 +280,8 @@ def run(ctx):
     pair_cons = range(NCON) if not quick else (0, 2, 3, 5, 6, 7, 8, 9)
     for c1 in names:
         for c2 in names:
+            if c2.startswith("module_doc"):
+                continue        # a module doccomment is only one at the very start of a file
             for a in pair_cons:
                 for b in ((0, 6, 8) if quick else range(NCON)):
                     s1 = len(slots(cmakegen.close(CARRIERS[c1]())))
